@@ -60,16 +60,22 @@ class Analysis:
                 elif k == 'class':
                     self.rules[s[1]] = ('class', s[3])
                     self.params[s[1]] = s[2]
-        self.minw_rule = {n: NEG for n in self.rules}
+        # Bellman-Ford style: start from "never succeeds" (+inf) and relax downwards; this
+        # yields the exact minimal net width of every rule (clipped), NEG on negative cycles
+        self.minw_rule = {n: POSW for n in self.rules}
+        converged = False
         for _ in range(40 * max(1, len(self.rules))):
             changed = False
             for n, (kind, body) in self.rules.items():
-                v = self._rule_minw(kind, body)
+                v = min(self._rule_minw(kind, body), self.minw_rule[n])
                 if v != self.minw_rule[n]:
                     self.minw_rule[n] = v
                     changed = True
             if not changed:
+                converged = True
                 break
+        if not converged:
+            self.minw_rule = {n: NEG for n in self.rules}
 
     def member_exprs(self, body):
         out = []
@@ -610,3 +616,155 @@ def random_inputs(rng, alphabet, n, maxlen):
         ln = rng.randint(0, maxlen)
         out.append(''.join(rng.choice(alphabet) for _ in range(ln)))
     return out
+
+
+# ---------------------------------------------------------------------------
+# sentence sampler: random derivations, used only to seed input search
+
+class Sampler:
+    def __init__(self, rng, grammars, ignorable=''):
+        if isinstance(grammars, dict):
+            grammars = [grammars]
+        self.rng = rng
+        self.an = Analysis(grammars)
+        self.ignorable = ignorable
+        self._re_cache = {}
+
+    def regex_sample(self, pat, icase):
+        key = (pat, icase)
+        if key not in self._re_cache:
+            import string
+            try:
+                rx = re.compile(pat, re.I if icase else 0)
+            except re.error:
+                self._re_cache[key] = ['']
+                return ['']
+            cands = []
+            pool = string.ascii_lowercase[:6] + string.digits[:4] + string.ascii_uppercase[:2] + ' \n()[]{}<>!?,;:+-*/.#_~'
+            for c in [''] + list(pool):
+                if rx.fullmatch(c):
+                    cands.append(c)
+            singles = [c for c in cands if c]
+            for a in singles[:4]:
+                for b2 in singles[:4]:
+                    if rx.fullmatch(a + b2):
+                        cands.append(a + b2)
+            self._re_cache[key] = cands or ['']
+        return self._re_cache[key]
+
+    def gap(self):
+        if self.ignorable and self.rng.random() < 0.3:
+            return ''.join(self.rng.choice(self.ignorable) for _ in range(self.rng.choice([1, 1, 2])))
+        return ''
+
+    def sample(self, e, depth, env=None):
+        r = self.rng
+        k = e[0]
+        env = env or {}
+        if k in ('str', 'istr'):
+            return e[1] + self.gap()
+        if k in ('bstr', 'bistr'):
+            return e[1].decode('latin-1') + self.gap()
+        if k == 'byte':
+            return chr(e[1]) + self.gap()
+        if k in ('re', 'bre'):
+            c = self.regex_sample(e[1], e[2])
+            return r.choice(c) + self.gap()
+        if k in ('py', 'num', 'expect', 'expectnot', 'fail', 'backtrack'):
+            return ''
+        if k == 'ref':
+            if e[1] in env:
+                return self.sample(env[e[1]], depth - 1, {})
+            return self.rule(e[1], depth - 1)
+        if k == 'super':
+            return self.rule(e[1], depth - 1)
+        if k == 'call':
+            if e[1] not in self.an.rules:
+                return ''
+            params = self.an.params.get(e[1]) or []
+            env2 = {}
+            pos = list(params)
+            for a in e[2]:
+                if isinstance(a, tuple) and a and a[0] == 'kw':
+                    env2[a[1]] = a[2]
+                    if a[1] in pos:
+                        pos.remove(a[1])
+                elif pos:
+                    env2[pos.pop(0)] = a
+            return self.rule(e[1], depth - 1, env2)
+        if k == 'seq':
+            return ''.join(self.sample(x, depth, env) for x in e[1])
+        if k in ('right', 'left', 'where', 'apply', 'lapply'):
+            return self.sample(e[1], depth, env) + self.sample(e[2], depth, env)
+        if k == 'let':
+            return self.sample(e[2], depth, env) + self.sample(e[3], depth, env)
+        if k in ('alt', 'longest'):
+            items = [x for x in e[1] if x[0] != 'fail'] or e[1]
+            if depth <= 0:
+                items = sorted(items, key=lambda x: self.an.minw(x))[:1]
+            return self.sample(r.choice(items), depth, env)
+        if k == 'opt':
+            return self.sample(e[1], depth, env) if depth > 0 and r.random() < 0.6 else ''
+        if k in ('star', 'plus'):
+            n = r.choice([0, 1, 1, 2, 3]) if depth > 0 else 0
+            if k == 'plus':
+                n = max(1, n)
+            return ''.join(self.sample(e[1], depth - 1, env) for _ in range(n))
+        if k == 'rep':
+            lo = e[2] if isinstance(e[2], int) else 0
+            hi = e[3] if isinstance(e[3], int) else lo + 2
+            n = r.randint(lo, max(lo, hi))
+            return ''.join(self.sample(e[1], depth - 1, env) for _ in range(n))
+        if k == 'skip':
+            return ''.join(self.sample(r.choice(e[1]), depth - 1, env) for _ in range(r.choice([0, 1, 2]))) if e[1] else ''
+        if k == 'sep':
+            n = r.choice([0, 1, 2, 3]) if depth > 0 else 0
+            if not e[3].get('allow_empty', True):
+                n = max(1, n)
+            parts = []
+            for i in range(n):
+                if i:
+                    parts.append(self.sample(e[2], depth - 1, env))
+                parts.append(self.sample(e[1], depth - 1, env))
+            if n and e[3].get('allow_trailer') and r.random() < 0.4:
+                parts.append(self.sample(e[2], depth - 1, env))
+            return ''.join(parts)
+        if k == 'optable':
+            rows = e[2]
+            pre = [o for kind, ops in rows if kind == 'prefix' for o in ops]
+            post = [o for kind, ops in rows if kind == 'postfix' for o in ops]
+            inf = [o for kind, ops in rows if kind in ('left', 'right', 'infix') for o in ops]
+            mix = [o for kind, ops in rows if kind == 'mixfix' for o in ops]
+            out = []
+            for i in range(r.randint(1, 3) if depth > 0 else 1):
+                if i:
+                    if not inf:
+                        break
+                    out.append(self.sample(r.choice(inf), depth - 1, env))
+                if pre and r.random() < 0.3:
+                    out.append(self.sample(r.choice(pre), depth - 1, env))
+                if mix and depth > 1 and r.random() < 0.3:
+                    out.append(self.sample(r.choice(mix), depth - 2, env))
+                else:
+                    out.append(self.sample(e[1], depth - 1, env))
+                if post and r.random() < 0.3:
+                    out.append(self.sample(r.choice(post), depth - 1, env))
+            return ''.join(out)
+        return ''
+
+    def rule(self, name, depth, env=None):
+        if name not in self.an.rules or depth < -6:
+            return ''
+        kind, body = self.an.rules[name]
+        if kind == 'rule':
+            return self.sample(body, depth, env)
+        return ''.join(self.sample(ex, depth, env) for ex in self.an.member_exprs(body))
+
+    def sentences(self, entry, n, depth=5):
+        out = []
+        for _ in range(n):
+            try:
+                out.append(self.rule(entry, self.rng.randint(1, depth)))
+            except RecursionError:
+                pass
+        return out
